@@ -582,6 +582,17 @@ func (fx *FX) storeHeapField(fr *frame, st *State, obj Term, sname string, field
 		// the invariant of obj may be broken until the function re-establishes it
 		fx.invBroken[obj.S+"|"+sname] = true
 		fx.invObjs = append(fx.invObjs, [2]string{obj.S, sname})
+		// the obligation at an exit only concerns paths on which the object was written
+		k := obj.S + "|" + sname
+		sr := st.reach
+		if fx.inLoopBlock {
+			sr = True // a store inside a loop: later iterations and the code after the loop see its effect
+		}
+		if old, ok := fx.invStoreReach[k]; ok {
+			fx.invStoreReach[k] = Or(old, sr)
+		} else {
+			fx.invStoreReach[k] = sr
+		}
 	}
 }
 
